@@ -95,6 +95,8 @@ class T:
         k, a = self.kind, self.args
         if k in ('char', 'str', 'slice', 'lsb0', 'msb0', 'refmut'):
             return False
+        if k == 'arr' and self.n > 64:
+            return False
         if k == 'tup' and len(a) > 18:
             return False
         if k == 'compact':
@@ -410,7 +412,7 @@ def fixed_corpus():
             T('arr', T('ph', u8), n=2), T('vec', T('ph', u8)), T('map', u8, T('ph', u8)), T('box', T('ph', s))]
     for n in range(1, 21):
         out.append(T('tup', *[T('u', n=W[i % 5]) if i % 4 else T('bool') for i in range(n)]))
-    out += [T('arr', u8, n=0), T('arr', u8, n=32), T('arr', T('arr', u32, n=2), n=3)]
+    out += [T('arr', u8, n=0), T('arr', u8, n=32), T('arr', T('arr', u32, n=2), n=3), T('arr', u8, n=4294967295), T('arr', u8, n=4294967297)]
     out += [T('opt', u8), T('opt', T('opt', T('bool'))), T('res', u8, s), T('cow', st), T('cow', T('slice', u8)), T('cow', u32),
             T('map', u32, s), T('map', T('i', n=8), T('vec', u8)), T('set', u32), T('set', T('bool')), T('heap', T('i', n=16)),
             T('range', u32), T('rangei', T('i', n=64)), T('range', T('u', n=128))]
